@@ -730,6 +730,13 @@ func runReplay(t *testing.T, res *report.Result, path string) {
 	if err != nil {
 		t.Fatal(err)
 	}
+	var fa struct {
+		Replay actReplay `json:"replay"`
+	}
+	if json.Unmarshal(b, &fa) == nil && fa.Replay.Family == "action" {
+		actionReplay(res, fa.Replay)
+		return
+	}
 	var f struct {
 		Replay replay `json:"replay"`
 	}
@@ -781,6 +788,9 @@ func TestCheck(t *testing.T) {
 	}
 	for _, v := range variants(res.Thorough()) {
 		search(t, res, v)
+	}
+	if prop == "C09" {
+		actionSearch(res)
 	}
 	if fx.TwinUnavailable {
 		res.Note("twin keys asked for (VERIF_FX_TWIN) but the sim wallet's account type could not be given a chosen key: this pass ran with ordinary keys")
